@@ -518,7 +518,50 @@ def has_bad_occ(snaps):
 # ------------------------------------------------------------------------------
 # case generation
 #
+def gen_frag_case(rng, disciplined=True):
+    """A fragmented pilot: every node filled by one task, some of them released, then multi-rank tasks with a
+    ranks-per-node limit arrive -- the search has to pass over full nodes, restart (continuous mode) and end on a
+    node that has more room than one task may take."""
+    nn = rng.randint(3, 5)
+    cpn = rng.choice([2, 4, 4])
+    gpn = rng.choice([0, 0, 1])
+    cfg = {'cpn': cpn, 'gpn': gpn, 'lfs': 0, 'mem': 0, 'scattered': rng.random() < 0.3}
+    nodes = [{'cores': [0] * cpn, 'gpus': [0] * gpn} for _ in range(nn)]
+
+    def req(uid, ranks, cpr, rpn=0, prio=0):
+        return {'uid': uid, 'ranks': ranks, 'cpr': cpr, 'gpr': 0, 'lfs': 0, 'mem': 0, 'rpn': rpn, 'prio': prio,
+                'colo': None, 'excl': False, 'env': None, 'slots': None}
+    ops, uid = [], 0
+    fill = []
+    for _ in range(nn):
+        uid += 1
+        fill.append(uid)
+        ops.append(['arrive', [req(uid, cpn, 1) if rng.random() < 0.6 else req(uid, 1, cpn)]])
+        ops.append(['iter'])
+    gone = rng.sample(fill, rng.randint(1, nn - 1))
+    ops.append(['unsched', gone])
+    ops.append(['iter'])
+    late = []
+    for _ in range(rng.randint(1, 3)):
+        uid += 1
+        late.append(uid)
+        ranks = rng.randint(2, 2 * cpn)
+        ops.append(['arrive', [req(uid, ranks, 1, rpn=rng.randint(1, max(1, cpn - 1)), prio=rng.choice([0, 0, 1]))]])
+        ops.append(['iter'])
+    rest = [u for u in fill if u not in gone]
+    if rest and rng.random() < 0.6:
+        ops.append(['unsched', rng.sample(rest, rng.randint(1, len(rest)))])
+        ops.append(['iter'])
+    for _ in range(2):
+        ops.append(['unsched', fill + late])
+        ops.append(['iter'])
+    return {'kind': 'sched', 'cfg': cfg, 'nodes': nodes, 'ops': ops, 'disciplined': disciplined,
+            'names': 'same' if rng.random() < 0.3 else 'unique'}
+
+
 def gen_case(rng, size='small', preplaced=False, disciplined=True):
+    if disciplined and rng.random() < 0.15:
+        return gen_frag_case(rng, disciplined)
     nn = rng.randint(1, 4)
     cpn = rng.choice([1, 2, 4, 4, 8])
     gpn = rng.choice([0, 1, 2, 2, 3])
